@@ -173,9 +173,12 @@ func bboxDisjoint(a, b []pt) bool {
 
 // starRing: k integer vertices around (cx,cy), Chebyshev radius in [rmin,rmax], sorted by angle,
 // consecutive angular gaps strictly between 0 and 180 degrees; counter-clockwise. nil if unlucky.
-func starRing(rng *rand.Rand, c pt, rmin, rmax int64, k int) []pt {
+func starRing(rng *rand.Rand, c pt, rmin, rmax int64, k int, forced ...pt) []pt {
 	for try := 0; try < 50; try++ {
 		vs := make([]pt, 0, k)
+		for _, f := range forced { // vertices that must be part of the ring
+			vs = append(vs, pt{f.x - c.x, f.y - c.y})
+		}
 		for len(vs) < k {
 			d := pt{rng.Int63n(2*rmax+1) - rmax, rng.Int63n(2*rmax+1) - rmax}
 			if m := max64(abs(d.x), abs(d.y)); m < rmin || m > rmax {
@@ -235,29 +238,61 @@ type gtPoly struct {
 	holes [][]pt
 }
 
+// preset: sizes of a scene family (integer units; one unit is one coordinate step of the embedding)
+type preset struct {
+	name               string
+	cell, off          int64 // grid cell size, centre offset inside the cell
+	rmin, rmax         int64 // Chebyshev radius range of outer vertices
+	hoff, hrmin, hrmax int64 // hole sub-cell centre offset, hole radius range (hrmax = 0: no holes)
+	nearOrigin         bool  // the first outer has a vertex next to (0,0): (1,0), (0,1) or (1,1)
+}
+
+var (
+	presetBig   = preset{"big", 1000, 550, 250, 480, 60, 12, 45, false}
+	presetTiny  = preset{"tiny", 100, 55, 25, 48, 8, 1, 5, false} // holes are rings of a few steps
+	presetMicro = preset{"micro", 24, 12, 2, 9, 0, 0, 0, false}   // outers of a few steps, no holes
+	presetNull  = preset{"null_island", 100, 40, 12, 39, 8, 1, 5, true}
+)
+
 // genScene: nOuter polygons in distinct grid cells; asserts all scene hypotheses exactly.
-func genScene(rng *rand.Rand, nOuter, maxHoles, maxVerts int) []gtPoly {
-	const cell = 1000
-	const grid = 8 // cells 0..7 -> coordinates 50..8050
+func genScene(rng *rand.Rand, ps preset, nOuter, maxHoles, maxVerts int) []gtPoly {
+	cell := ps.cell
+	const grid = 8
 	for {
 		cells := rng.Perm(grid * grid)[:nOuter]
+		if ps.nearOrigin {
+			for i, ci := range cells {
+				if ci == 0 {
+					cells[i] = cells[0]
+				}
+			}
+			cells[0] = 0
+		}
 		var sc []gtPoly
 		ok := true
-		for _, ci := range cells {
-			c := pt{int64(ci%grid)*cell + 550, int64(ci/grid)*cell + 550}
+		for idx, ci := range cells {
+			c := pt{int64(ci%grid)*cell + ps.off, int64(ci/grid)*cell + ps.off}
 			k := 3 + rng.Intn(maxVerts-2)
-			outer := starRing(rng, c, 250, 480, k)
+			var outer []pt
+			if ps.nearOrigin && idx == 0 {
+				outer = starRing(rng, c, ps.rmin, ps.rmax, k, []pt{{1, 0}, {0, 1}, {1, 1}}[rng.Intn(3)])
+			} else {
+				outer = starRing(rng, c, ps.rmin, ps.rmax, k)
+			}
 			if outer == nil {
 				ok = false
 				break
 			}
 			p := gtPoly{outer: outer}
 			nh := rng.Intn(maxHoles + 1)
+			if ps.hrmax == 0 {
+				nh = 0
+			}
 			sub := rng.Perm(4)
 			for h := 0; h < nh; h++ {
-				// sub-cells of the core square around the centre: centres at (+-60, +-60), radius <= 45
-				sc := pt{c.x + int64(sub[h]%2)*120 - 60, c.y + int64(sub[h]/2)*120 - 60}
-				hole := starRing(rng, sc, 12, 45, 3+rng.Intn(4))
+				// sub-cells of the core square around the centre: centres at (+-hoff, +-hoff)
+				sc := pt{c.x + int64(sub[h]%2)*2*ps.hoff - ps.hoff, c.y + int64(sub[h]/2)*2*ps.hoff - ps.hoff}
+				hole := starRing(rng, sc, ps.hrmin, ps.hrmax, 3+rng.Intn(4))
 				if hole == nil || !strictlyInside(hole, outer) {
 					continue // fewer holes: never use an unverified hole
 				}
@@ -283,7 +318,7 @@ func genScene(rng *rand.Rand, nOuter, maxHoles, maxVerts int) []gtPoly {
 		}
 		// sometimes move the scene so that it touches an axis (a vertex with lon = 0 or lat = 0,
 		// never both): "no location" on an annotated way node is lon == 0 AND lat == 0 only
-		if t := rng.Intn(4); t < 2 {
+		if t := rng.Intn(4); t < 2 && !ps.nearOrigin {
 			var dx, dy int64
 			x0, y0 := int64(coordLim), int64(coordLim)
 			for _, p := range sc {
@@ -310,6 +345,52 @@ func genScene(rng *rand.Rand, nOuter, maxHoles, maxVerts int) []gtPoly {
 		assertScene(sc)
 		return sc
 	}
+}
+
+// robust reports whether, for the embedding e, the float evaluation of every shoelace sign and of
+// every ray-casting comparison the code can perform on this scene provably agrees with the exact
+// integer one (so that the integer model is exact).  s = 1 with integer offsets: exact, always
+// true.  Otherwise eps bounds the error (in units) of one embedded coordinate; a difference of two
+// coordinates then carries <= 2 eps; a shoelace term (product of two differences of extent <= D)
+// <= 8 eps D; the crossing abscissa xi + (xj-xi)(y-yi)/(yj-yi) with |yj-yi| >= 1 <= 4 eps (D+1).
+// A safety factor 10 is applied.
+func robust(sc []gtPoly, e emb) bool {
+	if e.s == 1 && e.ox == float64(int64(e.ox)) && e.oy == float64(int64(e.oy)) {
+		return true
+	}
+	m := max64(int64(abs(int64(e.ox))), int64(abs(int64(e.oy)))) + 1
+	eps := float64(m)*2.3e-16/e.s + 1e-11
+	rings, _ := sceneRings(sc)
+	ext := func(r []pt) float64 {
+		x0, y0, x1, y1 := bbox(r)
+		return float64(max64(x1-x0, y1-y0) + 1)
+	}
+	for _, r := range rings {
+		if float64(abs(area2(r))) <= 10*8*float64(len(r)+1)*eps*ext(r) {
+			return false
+		}
+	}
+	for _, o := range sc {
+		d := ext(o.outer)
+		n := len(o.outer)
+		for _, q := range sc {
+			for _, h := range q.holes {
+				for _, p := range h {
+					for i := 0; i < n; i++ {
+						a, b := o.outer[i], o.outer[(i+1)%n]
+						if (a.y > p.y) == (b.y > p.y) {
+							continue
+						}
+						g := abs((p.x-b.x)*(a.y-b.y) - (a.x-b.x)*(p.y-b.y))
+						if float64(g)/float64(abs(a.y-b.y)) <= 10*4*eps*(d+1) {
+							return false
+						}
+					}
+				}
+			}
+		}
+	}
+	return true
 }
 
 // assertScene panics unless: rings simple with >= 3 vertices, outers pairwise disjoint and not
@@ -369,7 +450,22 @@ type piece struct {
 	rev                bool
 }
 
+// emb maps scene integer coordinates to degrees: lon = x*s + ox, lat = y*s + oy.  The Coq model
+// works on the integer identities; observed floats are mapped back through the exact table of
+// the floats the harness fed (an observed float that is not in the table is an invented
+// coordinate).  s = 1 with integer offsets is exact arithmetic; for s = 1e-7 the generator
+// asserts margins (robust) under which the float evaluation of every shoelace sign and every
+// ray-casting comparison of the code agrees with the integer one.
+type emb struct{ s, ox, oy float64 }
+
+var embIdentity = emb{1, 0, 0}
+
+func (e emb) pt(p pt) orb.Point {
+	return orb.Point{float64(p.x)*e.s + e.ox, float64(p.y)*e.s + e.oy}
+}
+
 type input struct {
+	e       emb
 	spec    []gtPoly // nil = no spec
 	pieces  []piece
 	nodes   []rawNode
@@ -395,7 +491,7 @@ func sceneRings(sc []gtPoly) (rings [][]pt, roles []int) {
 // cutScene: cut every ring into cuts[i] pieces (clamped to its size), reverse pieces at random,
 // assign shuffled node / way ids and shuffle the order of nodes, ways and members.
 func cutScene(rng *rand.Rand, sc []gtPoly, cuts func(ring, n int) int) *input {
-	in := &input{spec: sc, relType: []string{"multipolygon", "boundary"}[rng.Intn(2)]}
+	in := &input{e: embIdentity, spec: sc, relType: []string{"multipolygon", "boundary"}[rng.Intn(2)]}
 	rings, roles := sceneRings(sc)
 	nv := 0
 	for _, r := range rings {
@@ -491,7 +587,8 @@ func (in *input) build(src int, orients []int64) *osm.OSM {
 	o := &osm.OSM{}
 	if src != 1 {
 		for _, n := range in.nodes {
-			o.Nodes = append(o.Nodes, &osm.Node{ID: osm.NodeID(n.id), Lon: float64(n.p.x), Lat: float64(n.p.y), Version: 1, Visible: true})
+			f := in.e.pt(n.p)
+			o.Nodes = append(o.Nodes, &osm.Node{ID: osm.NodeID(n.id), Lon: f[0], Lat: f[1], Version: 1, Visible: true})
 		}
 	}
 	for _, w := range in.ways {
@@ -500,7 +597,8 @@ func (in *input) build(src int, orients []int64) *osm.OSM {
 			wn := osm.WayNode{ID: osm.NodeID(id)}
 			if src != 0 {
 				if p, ok := in.nodeAt(id); ok {
-					wn.Lon, wn.Lat = float64(p.x), float64(p.y)
+					f := in.e.pt(p)
+					wn.Lon, wn.Lat = f[0], f[1]
 				}
 			}
 			way.Nodes = append(way.Nodes, wn)
@@ -524,14 +622,40 @@ func (in *input) build(src int, orients []int64) *osm.OSM {
 
 var nonInteger bool
 
-func encPt(c *wire.Case, p orb.Point) {
+// inverse of the current embedding: exactly the floats fed to the implementation (nil = identity)
+var inverse map[orb.Point]pt
+
+func (in *input) setInverse() {
+	inverse = nil
+	if in == nil || in.e == embIdentity {
+		return
+	}
+	inverse = map[orb.Point]pt{}
+	for _, n := range in.nodes {
+		inverse[in.e.pt(n.p)] = n.p
+	}
+}
+
+func unembed(p orb.Point) (pt, bool) {
+	if inverse != nil {
+		q, ok := inverse[p]
+		return q, ok
+	}
 	x, y := int64(p[0]), int64(p[1])
 	if float64(x) != p[0] || float64(y) != p[1] || x < 0 || y < 0 || x >= coordLim || y >= coordLim {
+		return pt{}, false
+	}
+	return pt{x, y}, true
+}
+
+func encPt(c *wire.Case, p orb.Point) {
+	q, ok := unembed(p)
+	if !ok {
 		nonInteger = true
 		c.Tok(coordLim*coordLim - 1)
 		return
 	}
-	c.Tok(uint64(x*coordLim + y))
+	c.Tok(uint64(q.x*coordLim + q.y))
 }
 func encP(c *wire.Case, p pt) { c.Tok(uint64(p.x*coordLim + p.y)) }
 func encLine(c *wire.Case, l []pt) {
@@ -636,10 +760,11 @@ func obsRing(r orb.Ring) ([]pt, bool) {
 	}
 	o := make([]pt, 0, len(r)-1)
 	for _, p := range r[:len(r)-1] {
-		o = append(o, pt{int64(p[0]), int64(p[1])})
-		if float64(int64(p[0])) != p[0] || float64(int64(p[1])) != p[1] {
+		q, ok := unembed(p)
+		if !ok {
 			return nil, false
 		}
+		o = append(o, q)
 	}
 	return o, true
 }
@@ -703,7 +828,9 @@ func oracleRun(in *input, ob runObs) string {
 func sceneCase(in *input, runs []runObs, annots []annotObs) *wire.Case {
 	c := &wire.Case{Class: "scene"}
 	c.Int(1).Bool(in.spec != nil)
-	desc := map[string]interface{}{}
+	in.setInverse()
+	defer func() { inverse = nil }()
+	desc := map[string]interface{}{"embedding(lon=x*scale+lon0,lat=y*scale+lat0)": map[string]float64{"scale": in.e.s, "lon0": in.e.ox, "lat0": in.e.oy}}
 	if in.spec != nil {
 		c.Len(len(in.spec))
 		var gs []interface{}
@@ -811,7 +938,7 @@ func specCase(rng *rand.Rand, in *input) *wire.Case {
 // ---------------------------------------------------------------- malformed scenes (no spec)
 
 func malformed(rng *rand.Rand, in *input) *input {
-	m := &input{relType: in.relType}
+	m := &input{e: embIdentity, relType: in.relType}
 	m.nodes = append(m.nodes, in.nodes...)
 	for _, w := range in.ways {
 		m.ways = append(m.ways, rawWay{w.id, append([]int64(nil), w.nodes...)})
@@ -1074,7 +1201,7 @@ func main() {
 	a := wire.ParseArgs()
 	rng := wire.Rng(a.Seed)
 	w := wire.NewWriter("C16", a.Seed, a.Tier)
-	w.Rule = "scenes: 1-4 integer star-shaped outers in disjoint grid cells, 0-2 star-shaped holes each in disjoint sub-cells, strict containment / simplicity / disjointness asserted exactly; every ring cut into 1..6 pieces (all counts cycle), random reversals, shuffled members, ways, nodes and ids; each scene = 6 Convert runs (node map / annotated way nodes / both; no, truthful, partial truthful orientations; IncludeInvalidPolygons) + 2 annotate.Relations runs. malformed: a scene with 1-3 defects (missing way/member/node, node at (0,0), duplicate member, role change, dangling way, degenerate way, touching rings, node member), judged model=implementation only. join: random segment soups over a 12x12 pool plus valid cuts; contains / addmp: random rings. distinct = distinct token streams; trivial = empty soups."
+	w.Rule = "coordinate embedding: scene integer coordinates (x,y) are fed as lon = x*s+lon0, lat = y*s+lat0 for s in {1, 1e-7} and offsets {0, far from the origin}; observations are mapped back through the exact table of fed floats (vertex identities), scenes are used only when the generator's exact margins guarantee that float signs equal integer signs; families: big / tiny (holes of a few steps) / micro (outers of a few steps) / null_island (a vertex at (1,0), (0,1) or (1,1) steps). scenes: 1-4 integer star-shaped outers in disjoint grid cells, 0-2 star-shaped holes each in disjoint sub-cells, strict containment / simplicity / disjointness asserted exactly; every ring cut into 1..6 pieces (all counts cycle), random reversals, shuffled members, ways, nodes and ids; each scene = 6 Convert runs (node map / annotated way nodes / both; no, truthful, partial truthful orientations; IncludeInvalidPolygons) + 2 annotate.Relations runs. malformed: a scene with 1-3 defects (missing way/member/node, node at (0,0), duplicate member, role change, dangling way, degenerate way, touching rings, node member), judged model=implementation only. join: random segment soups over a 12x12 pool plus valid cuts; contains / addmp: random rings. distinct = distinct token streams; trivial = empty soups."
 	nscene, nmal, njoin, ncont, naddmp := 260, 120, 500, 500, 150
 	if a.Tier == "thorough" {
 		nscene, nmal, njoin, ncont, naddmp = 5000, 2500, 12000, 12000, 3000
@@ -1089,6 +1216,14 @@ func main() {
 			kk := k
 			w.Add(specCase(rng, cutScene(rng, g, func(ring, n int) int { return kk })))
 		}
+		for _, e := range []emb{{1e-7, 0, 0}, {1e-7, 107.3456789, 51.1234567}, {1, 100, -50}} {
+			if !robust(g, e) {
+				panic("corpus scene not float-robust")
+			}
+			in := cutScene(rng, g, func(ring, n int) int { return 2 })
+			in.e = e
+			w.Add(specCase(rng, in))
+		}
 	}
 	// 1. scenes
 	var keep []*input
@@ -1100,7 +1235,29 @@ func main() {
 		if i%31 == 0 {
 			nOuter = 4
 		}
-		g := genScene(rng, nOuter, 2, 5+rng.Intn(6))
+		// scene family: size preset x coordinate embedding
+		fams := []struct {
+			ps preset
+			e  emb
+		}{
+			{presetBig, embIdentity}, {presetBig, embIdentity}, {presetBig, embIdentity}, {presetTiny, embIdentity},
+			{presetBig, emb{1e-7, 0, 0}},                       // osm resolution next to (0,0)
+			{presetTiny, emb{1e-7, 0, 0}},                      //
+			{presetTiny, emb{1e-7, 120.1234567, 51.7654321}},   // tiny rings far from the origin
+			{presetMicro, emb{1e-7, -73.9876543, -33.1234567}}, // rings of a few steps, far away
+			{presetNull, emb{1e-7, 0, 0}},                      // a vertex one step from (0,0)
+			{presetMicro, emb{1e-7, 107.3456789, 51.1234567}},  //
+		}
+		fam := fams[i%len(fams)]
+		var g []gtPoly
+		for {
+			g = genScene(rng, fam.ps, nOuter, 2, 5+rng.Intn(6))
+			if robust(g, fam.e) {
+				break
+			}
+			w.Count("scene_rejected_not_float_robust")
+		}
+		w.Count(fmt.Sprintf("family:%s scale=%g offset=(%g,%g)", fam.ps.name, fam.e.s, fam.e.ox, fam.e.oy))
 		base := i
 		in := cutScene(rng, g, func(ring, n int) int {
 			if base%7 == 0 && ring == 0 {
@@ -1108,6 +1265,7 @@ func main() {
 			}
 			return 1 + (base+ring+rng.Intn(2))%6
 		})
+		in.e = fam.e
 		for _, n := range in.nodes {
 			if n.p.x == 0 || n.p.y == 0 {
 				w.Count("scene_touches_axis")
